@@ -4,7 +4,7 @@ from engines.linefuzz import delivered
 
 globals().update(make(
     'C03', ('wake',),
-    [('contention', 4), ('general', 3), ('groups', 4), ('buffers', 2), ('noise', 2), ('interrupt', 1), ('batching', 1), ('rework', 1), ('parallel', 1)],
+    [('contention', 4), ('general', 3), ('groups', 4), ('buffers', 3), ('noise', 2), ('interrupt', 2), ('batching', 1), ('rework', 1), ('parallel', 1)],
     'Oracle (counterfactual probe): at every quiescent instant (the clock is about to advance) every device holding a '
     'READY part (operational handler/processor/batcher with an output part; source with output and budget left; '
     'buffer whose head has waited its minimum delay) is deep-copied together with the whole System and the part is '
